@@ -73,7 +73,7 @@ def run(ctx) -> None:
                       "(a failure of that pull would otherwise suppress an item the stdlib delivers first) (R05.1)")
     for short in c05.TOOLS:
         c05.r05_1(ctx, ctx.unit(short), "R06.5")
-    ctx.floor("handlers", 22)
+    ctx.floor("handlers", 15)
     ctx.floor("aexit_methods", 5)
 
 
@@ -144,7 +144,7 @@ def _census(ctx, u: Unit) -> None:
                     ctx.ok("R06.1", u, f"{label}: H1, region holds only source steps", line=h.lineno)
             elif names == ["AttributeError"]:
                 ctx.count("H2")
-                kinds = [n.kind for n in body if n.kind not in ("store", "nop")]
+                kinds = [n.kind for n in body if n.kind not in ("store", "nop", "return")]
                 calls = [n for n in body if n.kind == "call"]
                 ok = kinds and all(k in ("attr", "call") for k in kinds) and len(calls) <= 1 \
                     and all(isinstance(c.ast.func, ast.Attribute) for c in calls)  # type: ignore[union-attr]
@@ -177,6 +177,11 @@ def _census(ctx, u: Unit) -> None:
                         continue
                     cls = raised_class(ctx, u, sub)
                     ok = (ctx.pkg.canonical(u), cls) in PROTOCOL_RAISES
+                    if not ok and u.parent is None and u.qualname.rsplit(".", 1)[-1].startswith("_"):
+                        # a private helper raising on behalf of the documented operation(s) that call it
+                        from .common import callers_of
+                        users = callers_of(ctx, u)
+                        ok = bool(users) and all((ctx.pkg.canonical(v), cls) in PROTOCOL_RAISES for v in users)
                     ctx.check(ok, "R06.2", u, sub,
                               f"`raise {cls}` inside `{label}` is a documented protocol raise" if ok else
                               f"handler `{label}` replaces the intercepted exception by `{cls}`")
